@@ -107,6 +107,7 @@ M("c12-register-after-send", "C12", A + "http2.py", "            stream_id = sel
 M("c13-unbounded-chunk", "C13", A + "http2.py", "            chunk_size = min(len(data), max_flow)", "            chunk_size = len(data)", "C13.R1")
 M("c13-ack-len-data", "C13", A + "http2.py", "                amount = event.flow_controlled_length", "                amount = len(event.data)", "C13.R5")
 M("c13-no-ack", "C13", A + "http2.py", "                self._h2_state.acknowledge_received_data(amount, stream_id)\n", "", "C13.R5")
+M("c13-negative-window-ends-wait", "C13", A + "http2.py", "        while flow <= 0:", "        while flow == 0:", "C13.R3")   # reverts fix 664668d (KF28)
 M("c13-stale-window", "C13", A + "http2.py", "            await self._receive_events(request)\n            local_flow = self._h2_state.local_flow_control_window(stream_id)\n", "            await self._receive_events(request)\n", "C13.R3")
 # ---- C14 ------------------------------------------------------------------------------------------------
 M("c14-retry-more", "C14", A + "connection_pool.py", "except ConnectionNotAvailable:", "except (ConnectionNotAvailable, ConnectionError):", "C14.R1")
@@ -146,3 +147,37 @@ M("c20-oserror", "C20", A + "connection.py", "except (ConnectError, ConnectTimeo
 M("c20-factor-1", "C20", A + "connection.py", "RETRIES_BACKOFF_FACTOR = 0.5", "RETRIES_BACKOFF_FACTOR = 1.0", "C20.R4")
 M("c20-no-decrement", "C20", A + "connection.py", "                retries_left -= 1\n", "", "C20.R3")
 M("c20-retries-plus-one", "C20", A + "connection.py", "        retries_left = self._retries\n", "        retries_left = self._retries + 1\n", "C20.R3")
+# ---- transport layer (backend.py rules) and the rules added after seeded round 3 --------------------------
+B_ = "httpcore/_backends/"
+S_ = "httpcore/_synchronization.py"
+M("tl-sync-send-once", "C03,C13", B_ + "sync.py", "            while buffer:\n                self._sock.settimeout(timeout)\n                n = self._sock.send(buffer)\n                buffer = buffer[n:]",
+  "            self._sock.settimeout(timeout)\n            self._sock.send(buffer)", None)
+M("tl-sync-send-advance-by-one", "C03,C13", B_ + "sync.py", "                n = self._sock.send(buffer)\n                buffer = buffer[n:]", "                n = self._sock.send(buffer)\n                buffer = buffer[n + 1:]", None)
+M("tl-tlsintls-write-once", "C03", B_ + "sync.py", "            while buffer:\n                nsent = self._perform_io(functools.partial(self.ssl_obj.write, buffer))\n                buffer = buffer[nsent:]",
+  "            self._perform_io(functools.partial(self.ssl_obj.write, buffer))", "C03.R9")
+M("tl-anyio-write-truncated", "C03", B_ + "anyio.py", "                await self._stream.send(item=buffer)", "                await self._stream.send(item=buffer[:65536])", "C03.R9")
+M("tl-trio-write-skips-small", "C03", B_ + "trio.py", "        if not buffer:\n            return\n\n        timeout_or_inf", "        if len(buffer) < 2:\n            return\n\n        timeout_or_inf", "C03.R9")
+M("tl-anyio-read-stripped", "C02", B_ + "anyio.py", "                    return await self._stream.receive(max_bytes=max_bytes)", "                    return (await self._stream.receive(max_bytes=max_bytes)).rstrip(b\"\\x00\")", "C02.R7")
+M("tl-sync-read-twice", "C02", B_ + "sync.py", "            return self._sock.recv(max_bytes)", "            self._sock.recv(1)\n            return self._sock.recv(max_bytes)", "C02.R7")
+M("tl-close-after-shutdown", "C06,C15", B_ + "sync.py", "    def close(self) -> None:\n        self._sock.close()\n\n    def start_tls(\n        self,\n        ssl_context: ssl.SSLContext,\n        server_hostname: str | None = None,\n        timeout: float | None = None,\n    ) -> NetworkStream:\n        exc_map",
+  "    def close(self) -> None:\n        self._sock.shutdown(socket.SHUT_RDWR)\n        self._sock.close()\n\n    def start_tls(\n        self,\n        ssl_context: ssl.SSLContext,\n        server_hostname: str | None = None,\n        timeout: float | None = None,\n    ) -> NetworkStream:\n        exc_map", None)
+M("tl-anyio-close-conditional", "C06", B_ + "anyio.py", "    async def aclose(self) -> None:\n        await self._stream.aclose()", "    async def aclose(self) -> None:\n        if self.get_extra_info(\"is_readable\"):\n            await self._stream.aclose()", "C06.R7")
+M("tl-event-lazy", "C08,C07", S_, "class Event:\n    def __init__(self) -> None:\n        self._event = threading.Event()\n\n    def set(self) -> None:\n        self._event.set()",
+  "class Event:\n    def __init__(self) -> None:\n        self._event = threading.Event()\n        self._is_set = False\n\n    def set(self) -> None:\n        if not self._is_set:\n            self._is_set = True\n            return\n        self._event.set()", None)
+M("tl-async-event-recreated", "C08,C07", S_, "    async def wait(self, timeout: float | None = None) -> None:\n        if not self._backend:\n            self.setup()\n\n        if self._backend == \"trio\":\n            trio_exc_map",
+  "    async def wait(self, timeout: float | None = None) -> None:\n        self.setup()\n\n        if self._backend == \"trio\":\n            trio_exc_map", None)
+M("tl-semaphore-release-guarded", "C08,C07", S_, "    def release(self) -> None:\n        self._semaphore.release()", "    def release(self) -> None:\n        if self._semaphore.acquire(blocking=False):\n            self._semaphore.release()", None)
+M("tl-lock-is-rebound", "C08", S_, "    def __exit__(\n        self,\n        exc_type: type[BaseException] | None = None,\n        exc_value: BaseException | None = None,\n        traceback: types.TracebackType | None = None,\n    ) -> None:\n        self._lock.release()\n\n\nclass ThreadLock",
+  "    def __exit__(\n        self,\n        exc_type: type[BaseException] | None = None,\n        exc_value: BaseException | None = None,\n        traceback: types.TracebackType | None = None,\n    ) -> None:\n        self._lock.release()\n        self._lock = threading.Lock()\n\n\nclass ThreadLock", "C08.R9")
+M("tl-shield-not-shielding", "C05", S_, "            self._anyio_shield = anyio.CancelScope(shield=True)", "            self._anyio_shield = anyio.CancelScope()", "C05.R7")
+M("tl-shield-exit-skipped", "C05", S_, "            self._trio_shield.__exit__(exc_type, exc_value, traceback)", "            pass", "C05.R7")
+M("tl-trio-is-readable-tls", "C18,C09", B_ + "trio.py", "            socket = self.get_extra_info(\"socket\")\n            return socket.is_readable()", "            if isinstance(self._stream, trio.SSLStream):\n                return False\n            socket = self.get_extra_info(\"socket\")\n            return socket.is_readable()", None)
+M("tl-anyio-valueerror-connecterror", "C20", B_ + "anyio.py", "            OSError: ConnectError,\n            anyio.BrokenResourceError: ConnectError,\n        }\n        with map_exceptions(exc_map):\n            with anyio.fail_after(timeout):\n                stream: anyio.abc.ByteStream = await anyio.connect_tcp(",
+  "            OSError: ConnectError,\n            ValueError: ConnectError,\n            anyio.BrokenResourceError: ConnectError,\n        }\n        with map_exceptions(exc_map):\n            with anyio.fail_after(timeout):\n                stream: anyio.abc.ByteStream = await anyio.connect_tcp(", "C20.R6")
+M("c16-forward-drops-extensions", "C16", A + "http_proxy.py", "            content=request.stream,\n            extensions=request.extensions,\n", "            content=request.stream,\n", "C16.R5")
+M("c12-write-sticky-on-baseexception", "C12", A + "http2.py", "            except Exception as exc:  # pragma: nocover\n                # If we get a network error we should:\n                #\n                # 1. Save the exception and just raise it immediately on any future write.",
+  "            except BaseException as exc:  # pragma: nocover\n                # If we get a network error we should:\n                #\n                # 1. Save the exception and just raise it immediately on any future write.", "C12.R6")
+M("c09-h11-idle-without-their-done", "C09", A + "http11.py", "                self._h11_state.our_state is h11.DONE\n                and self._h11_state.their_state is h11.DONE", "                self._h11_state.our_state is h11.DONE", "C09.R4")
+M("c19-origin-port-normalised-in-place", "C19", "httpcore/_models.py", "    def __eq__(self, other: typing.Any) -> bool:\n        return (\n            isinstance(other, Origin)", "    def __eq__(self, other: typing.Any) -> bool:\n        if isinstance(other, Origin) and other.port is None:\n            other.port = self.port\n        return (\n            isinstance(other, Origin)", "C19.R8")
+M("c11-refusal-reads-body", "C11", A + "http_proxy.py", "                    msg = \"%d %s\" % (connect_response.status, reason_str)\n", "                    msg = \"%d %s\" % (connect_response.status, reason_str)\n                    await connect_response.aread()\n", "C11.R3")
+M("c04-is-closed-trusts-flag", "C04,C06", A + "connection.py", "        if self._connection is None:\n            return self._connect_failed\n        return self._connection.is_closed()", "        if self._connect_failed:\n            return True\n        return self._connection is not None and self._connection.is_closed()", None)
